@@ -76,6 +76,117 @@ theorem orWire_error_iff {α : Type} {c : Except String α} {w : Unit → Wire.F
   rintro ⟨rfl, why', hw⟩
   simp [Front.orWire, hw]
 
+/-! ### `settle`: same header read, same items; the tail is `Codec`'s or a clean end -/
+
+theorem settle_ok {η β : Type} {decH : Codec.Dec η} {decB : η → Option (Codec.Dec β)} {fin : η → β → Bool} {msg : Bytes}
+    {c : Except String (HeaderRead η × PStream β)} {hr : HeaderRead η} {ps : PStream β}
+    (h : Front.settle decH decB fin msg c = .ok (hr, ps)) :
+    ∃ ps0, c = .ok (hr, ps0) ∧ ps.items = ps0.items ∧ (ps.tail = ps0.tail ∨ ps.tail = .eof) := by
+  cases c with
+  | error w => cases h
+  | ok x =>
+    obtain ⟨hr0, ps0⟩ := x
+    cases hr0 with
+    | ok hb h0 =>
+      simp only [Front.settle] at h
+      split at h
+      · split at h
+        · split at h
+          · cases h; exact ⟨_, rfl, rfl, Or.inr rfl⟩
+          · cases h; exact ⟨_, rfl, rfl, Or.inl rfl⟩
+        · cases h; exact ⟨_, rfl, rfl, Or.inl rfl⟩
+      · cases h; exact ⟨_, rfl, rfl, Or.inl rfl⟩
+    | unreadable => cases h; exact ⟨_, rfl, rfl, Or.inl rfl⟩
+    | undecodable hb => cases h; exact ⟨_, rfl, rfl, Or.inl rfl⟩
+
+theorem settle_error {η β : Type} {decH : Codec.Dec η} {decB : η → Option (Codec.Dec β)} {fin : η → β → Bool} {msg : Bytes}
+    {c : Except String (HeaderRead η × PStream β)} {w : String} :
+    Front.settle decH decB fin msg c = .error w ↔ c = .error w := by
+  constructor
+  · intro h
+    cases c with
+    | error w' => exact h
+    | ok x =>
+      obtain ⟨hr0, ps0⟩ := x
+      cases hr0 with
+      | ok hb h0 =>
+        simp only [Front.settle] at h
+        split at h
+        · split at h
+          · split at h
+            · cases h
+            · cases h
+          · cases h
+        · cases h
+      | unreadable => cases h
+      | undecodable hb => cases h
+  · intro h
+    subst h
+    rfl
+
+/-- a stream that `Codec` ends cleanly is left alone -/
+theorem settle_of_eof {η β : Type} {decH : Codec.Dec η} {decB : η → Option (Codec.Dec β)} {fin : η → β → Bool} {msg : Bytes}
+    {hr : HeaderRead η} {items : List (Option β)} :
+    Front.settle decH decB fin msg (.ok (hr, ⟨items, .eof⟩)) = .ok (hr, ⟨items, .eof⟩) := by
+  unfold Front.settle
+  cases hr <;> simp
+
+/-- where `Codec` reads a message to a clean end, the front end is `Codec` -/
+theorem readEnc_of_codec_eof {msg : Bytes} {hr : HeaderRead EncHeader} {items : List (Option EncBlock)}
+    (h : Codec.splitEnc msg = .ok (hr, ⟨items, .eof⟩)) : Front.readEnc msg = .ok (hr, ⟨items, .eof⟩) := by
+  unfold Front.readEnc; rw [h]; exact orWire_of_codec settle_of_eof
+
+theorem readSigncrypt_of_codec_eof {msg : Bytes} {hr : HeaderRead EncHeader} {items : List (Option SigncryptBlock)}
+    (h : Codec.splitSigncrypt msg = .ok (hr, ⟨items, .eof⟩)) : Front.readSigncrypt msg = .ok (hr, ⟨items, .eof⟩) := by
+  unfold Front.readSigncrypt; rw [h]; exact orWire_of_codec settle_of_eof
+
+theorem readSig_of_codec_eof {msg : Bytes} {hr : HeaderRead SigHeader} {items : List (Option SigBlock)}
+    (h : Codec.splitSig msg = .ok (hr, ⟨items, .eof⟩)) : Front.readSig msg = .ok (hr, ⟨items, .eof⟩) := by
+  unfold Front.readSig; rw [h]; exact orWire_of_codec settle_of_eof
+
+/-- in general: the same header read and items, the tail `Codec`'s or a clean end -/
+theorem readEnc_of_codec {msg : Bytes} {hr : HeaderRead EncHeader} {ps : PStream EncBlock}
+    (h : Codec.splitEnc msg = .ok (hr, ps)) :
+    ∃ ps', Front.readEnc msg = .ok (hr, ps') ∧ ps'.items = ps.items ∧ (ps'.tail = ps.tail ∨ ps'.tail = .eof) := by
+  unfold Front.readEnc
+  rw [h]
+  generalize hs : Front.settle _ _ _ msg (Except.ok (hr, ps)) = c
+  cases c with
+  | error w => rw [settle_error] at hs; cases hs
+  | ok x =>
+    obtain ⟨hr', ps'⟩ := x
+    obtain ⟨ps0, e, a, b⟩ := settle_ok hs
+    cases e
+    exact ⟨ps', rfl, a, b⟩
+
+theorem readSigncrypt_of_codec {msg : Bytes} {hr : HeaderRead EncHeader} {ps : PStream SigncryptBlock}
+    (h : Codec.splitSigncrypt msg = .ok (hr, ps)) :
+    ∃ ps', Front.readSigncrypt msg = .ok (hr, ps') ∧ ps'.items = ps.items ∧ (ps'.tail = ps.tail ∨ ps'.tail = .eof) := by
+  unfold Front.readSigncrypt
+  rw [h]
+  generalize hs : Front.settle _ _ _ msg (Except.ok (hr, ps)) = c
+  cases c with
+  | error w => rw [settle_error] at hs; cases hs
+  | ok x =>
+    obtain ⟨hr', ps'⟩ := x
+    obtain ⟨ps0, e, a, b⟩ := settle_ok hs
+    cases e
+    exact ⟨ps', rfl, a, b⟩
+
+theorem readSig_of_codec {msg : Bytes} {hr : HeaderRead SigHeader} {ps : PStream SigBlock}
+    (h : Codec.splitSig msg = .ok (hr, ps)) :
+    ∃ ps', Front.readSig msg = .ok (hr, ps') ∧ ps'.items = ps.items ∧ (ps'.tail = ps.tail ∨ ps'.tail = .eof) := by
+  unfold Front.readSig
+  rw [h]
+  generalize hs : Front.settle _ _ _ msg (Except.ok (hr, ps)) = c
+  cases c with
+  | error w => rw [settle_error] at hs; cases hs
+  | ok x =>
+    obtain ⟨hr', ps'⟩ := x
+    obtain ⟨ps0, e, a, b⟩ := settle_ok hs
+    cases e
+    exact ⟨ps', rfl, a, b⟩
+
 theorem codecDetached_ok {sigMsg : Bytes} {hr : HeaderRead SigHeader} {sr : Sign.SigRead}
     (h : Front.codecDetached sigMsg = .ok (hr, sr)) :
     ∃ d, Codec.splitDetached sigMsg = .ok (hr, d) ∧ sr = Front.detSig d := by
@@ -223,19 +334,28 @@ theorem detSig_plain (d : Codec.DetSig) : SigReadPlain (Front.detSig d) := by
 theorem readEnc_tail (msg : Bytes) (hr : HeaderRead EncHeader) (ps : PStream EncBlock)
     (h : Front.readEnc msg = .ok (hr, ps)) : TailPlain ps.tail := by
   rcases orWire_ok h with hc | ⟨_, _, hw⟩
-  · exact codec_split_tail _ _ msg hr ps hc
+  · obtain ⟨ps0, hc0, _, ht⟩ := settle_ok hc
+    rcases ht with ht | ht
+    · rw [ht]; exact codec_split_tail _ _ msg hr ps0 hc0
+    · exact Or.inl ht
   · exact wire_split_tail _ _ msg hr ps hw
 
 theorem readSigncrypt_tail (msg : Bytes) (hr : HeaderRead EncHeader) (ps : PStream SigncryptBlock)
     (h : Front.readSigncrypt msg = .ok (hr, ps)) : TailPlain ps.tail := by
   rcases orWire_ok h with hc | ⟨_, _, hw⟩
-  · exact codec_split_tail _ _ msg hr ps hc
+  · obtain ⟨ps0, hc0, _, ht⟩ := settle_ok hc
+    rcases ht with ht | ht
+    · rw [ht]; exact codec_split_tail _ _ msg hr ps0 hc0
+    · exact Or.inl ht
   · exact wire_split_tail _ _ msg hr ps hw
 
 theorem readSig_tail (msg : Bytes) (hr : HeaderRead SigHeader) (ps : PStream SigBlock)
     (h : Front.readSig msg = .ok (hr, ps)) : TailPlain ps.tail := by
   rcases orWire_ok h with hc | ⟨_, _, hw⟩
-  · exact codec_split_tail _ _ msg hr ps hc
+  · obtain ⟨ps0, hc0, _, ht⟩ := settle_ok hc
+    rcases ht with ht | ht
+    · rw [ht]; exact codec_split_tail _ _ msg hr ps0 hc0
+    · exact Or.inl ht
   · exact wire_split_tail _ _ msg hr ps hw
 
 theorem readDetached_plain (sigMsg : Bytes) (hr : HeaderRead SigHeader) (sr : Sign.SigRead)
